@@ -264,7 +264,11 @@ func (data stageData) generateStage() error {
 
 
 func fatal(base string, params...interface{}) {
-	fmt.Fprintf(os.Stderr, base, params...)
+	if len(params) == 0 {
+		fmt.Fprint(os.Stderr, base)
+	} else {
+		fmt.Fprintf(os.Stderr, base, params...)
+	}
 	fmt.Fprintln(os.Stderr)
 	os.Exit(1)
 }
